@@ -2,6 +2,7 @@ package props
 
 import (
 	"bytes"
+	"encoding/binary"
 	"fmt"
 	"strings"
 
@@ -66,6 +67,22 @@ func c06Types() []c06Type {
 		}
 		return
 	}
+	// dec: big-endian two's complement, n bytes (0 = the shortest form)
+	dec := func(n int, v ...int64) (out []parquet.Value) {
+		for _, x := range v {
+			b := make([]byte, 8)
+			binary.BigEndian.PutUint64(b, uint64(x))
+			if n == 0 {
+				for len(b) > 1 && ((b[0] == 0 && b[1] < 0x80) || (b[0] == 0xff && b[1] >= 0x80)) {
+					b = b[1:]
+				}
+				out = append(out, parquet.ByteArrayValue(b))
+			} else {
+				out = append(out, parquet.FixedLenByteArrayValue(b[8-n:]))
+			}
+		}
+		return
+	}
 	return []c06Type{
 		{"int32", func() parquet.Node { return parquet.Int(32) }, i32(-4, -3, -2, -1, 0, 1, 2, 3, 4), 0},
 		{"int32pos", func() parquet.Node { return parquet.Int(32) }, i32(1, 2, 3, 4, 5, 6, 7, 8, 9), 0},
@@ -76,6 +93,9 @@ func c06Types() []c06Type {
 		{"string-trunc2", func() parquet.Node { return parquet.String() }, ba("aa", "aa1", "aa15", "aa2", "aa9", "ab0", "b", "\xff\xff\xff", "\xff\xff\xff\xff"), 2},
 		{"uuid", func() parquet.Node { return parquet.UUID() }, fl(16, "\x00", "\x01", "\x01\x01", "\x02", "\x02\x01", "\x03", "\x03\x01", "\x04", "\x05"), 0},
 		{"flba4", func() parquet.Node { return parquet.Leaf(parquet.FixedLenByteArrayType(4)) }, fl(4, "\x00", "\x01", "\x01\x01", "\x02", "\x02\x01", "\x03", "\x03\x01", "\x04", "\x05"), 0},
+		// decimals stored as big-endian two's complement bytes, ordered as signed numbers
+		{"decimal-flba8", func() parquet.Node { return parquet.Decimal(2, 18, parquet.FixedLenByteArrayType(8)) }, dec(8, -300, -200, -1, 0, 1, 200, 300, 70000, 70001), 0},
+		{"decimal-bytes", func() parquet.Node { return parquet.Decimal(2, 18, parquet.ByteArrayType) }, dec(0, -300, -200, -1, 0, 1, 200, 300, 70000, 70001), 0},
 	}
 }
 
@@ -96,7 +116,7 @@ func init() {
 	Register(&engine.Prop{
 		ID:    "C06",
 		Level: "exploration",
-		Rule: "all column indexes with <=N pages (N=4 quick, 5 thorough; 6 for int32 thorough) over 11 page kinds {null page, (min,max) over a 4-value alphabet} x 9 column types x {direct indexer, real writer+reopened file, the same pages over two or three row groups combined by MultiRowGroup} x 9 probes; " +
+		Rule: "all column indexes with <=N pages (N=4 quick, 5 thorough; 6 for int32 thorough) over 11 page kinds {null page, (min,max) over a 4-value alphabet} x 11 column types x {direct indexer, real writer+reopened file, the same pages over two or three row groups combined by MultiRowGroup} x 9 probes; " +
 			"non-trivial = index has >=2 pages, >=1 non-null page and the probe lies within some page's bounds; distinct by (type, path, page kinds, probe)",
 		Assumptions: []string{"page content of a (min,max) page is the alphabet values in [min,max]; values outside the alphabet are probed only against index bounds"},
 		Bound:       c06Bound,
